@@ -109,6 +109,39 @@ namespace
         }
     };
 
+    // composable leaf that provides only the node functions: array requests reach it through the traits' defaults
+    template <int Tag>
+    struct cleaf_min_t
+    {
+        using is_stateful = std::true_type;
+        cleaf_t<Tag> full;
+        explicit cleaf_min_t(cleaf_t<Tag> f) : full(std::move(f)) {}
+        void* allocate_node(std::size_t size, std::size_t al)
+        {
+            return full.allocate_node(size, al);
+        }
+        void deallocate_node(void* p, std::size_t size, std::size_t al) noexcept
+        {
+            full.deallocate_node(p, size, al);
+        }
+        void* try_allocate_node(std::size_t size, std::size_t al) noexcept
+        {
+            return full.try_allocate_node(size, al);
+        }
+        bool try_deallocate_node(void* p, std::size_t size, std::size_t al) noexcept
+        {
+            return full.try_deallocate_node(p, size, al);
+        }
+        std::size_t max_node_size() const noexcept
+        {
+            return full.max_node_size();
+        }
+        std::size_t max_alignment() const noexcept
+        {
+            return 64;
+        }
+    };
+
     struct leaves
     {
         std::vector<probe_handle> h;
@@ -873,7 +906,22 @@ namespace
                         unique_base_ptr<base_t, probe_raw> b2(allocate_unique<derived_t<70000>>(leaf));
                         unique_base_ptr<base_t, probe_raw> b3(allocate_unique<derived_t<65536 - 16>>(leaf));
                         env.lv.check();
-                        count_("smart_pointers", 8);
+                        // the non-destroying counterpart: allocator_deallocator converted to allocator_polymorphic_deallocator, with a
+                        // derived type that is larger and more strictly aligned than its base
+                        {
+                            struct alignas(64) wide_t : base_t
+                            {
+                                unsigned char payload[100];
+                            };
+                            void* m = allocator_traits<probe_raw>::allocate_node(leaf, sizeof(wide_t), alignof(wide_t));
+                            auto  w = ::new (m) wide_t;
+                            std::unique_ptr<wide_t, allocator_deallocator<wide_t, probe_raw>> raw(w, allocator_deallocator<wide_t, probe_raw>(leaf));
+                            std::unique_ptr<base_t, allocator_polymorphic_deallocator<base_t, probe_raw>> erased(std::move(raw));
+                            erased->~base_t(); // the deallocator only releases
+                            env.lv.check();
+                        }
+                        env.lv.check();
+                        count_("smart_pointers", 9);
                         if (r.chance(50))
                             b2.reset();
                         env.lv.check();
@@ -968,6 +1016,37 @@ int main(int argc, char** argv)
             return std::unique_ptr<FBt>(new FBt(TRD(tracker{&tlog}, std::move(A)), l.make<1>("B", 1 << 20, "C08")));
         }, 64);
         g_after_op = nullptr;
+        // the composable interface behind the storage classes and behind the traits' defaults
+        {
+            using FBmin = fallback_allocator<cleaf_min_t<0>, cleaf_t<1>>;
+            routing_kind<FBmin>(a, "fallback<leaf-node-functions-only,leaf>", [](leaves& l, rng& r) {
+                return std::unique_ptr<FBmin>(new FBmin(cleaf_min_t<0>(l.make<0>("A", r.range(100, 600), "C08")), l.make<1>("B", 1 << 20, "C08")));
+            }, 64);
+            struct ref_fb
+            {
+                cleaf_t<0> a;
+                cleaf_t<1> b;
+                fallback_allocator<allocator_reference<cleaf_t<0>>, allocator_reference<cleaf_t<1>>> fb;
+                ref_fb(cleaf_t<0> x, cleaf_t<1> y) : a(std::move(x)), b(std::move(y)), fb(allocator_reference<cleaf_t<0>>(a), allocator_reference<cleaf_t<1>>(b)) {}
+            };
+            using FBref = fallback_allocator<allocator_reference<cleaf_t<0>>, allocator_reference<cleaf_t<1>>>;
+            routing_kind<FBref>(a, "fallback<reference<leaf>,reference<leaf>>", [](leaves& l, rng& r) {
+                auto h = std::make_shared<ref_fb>(l.make<0>("A", r.range(100, 600), "C08"), l.make<1>("B", 1 << 20, "C08"));
+                return std::shared_ptr<FBref>(h, &h->fb);
+            }, 64);
+            struct any_fb
+            {
+                cleaf_t<0> a;
+                cleaf_t<1> b;
+                fallback_allocator<any_allocator_reference, allocator_reference<cleaf_t<1>>> fb;
+                any_fb(cleaf_t<0> x, cleaf_t<1> y) : a(std::move(x)), b(std::move(y)), fb(any_allocator_reference(a), allocator_reference<cleaf_t<1>>(b)) {}
+            };
+            using FBany = fallback_allocator<any_allocator_reference, allocator_reference<cleaf_t<1>>>;
+            routing_kind<FBany>(a, "fallback<any_reference<leaf>,reference<leaf>>", [](leaves& l, rng& r) {
+                auto h = std::make_shared<any_fb>(l.make<0>("A", r.range(100, 600), "C08"), l.make<1>("B", 1 << 20, "C08"));
+                return std::shared_ptr<FBany>(h, &h->fb);
+            }, 64);
+        }
         using SEG = binary_segregator<threshold_segregatable<cleaf_t<0>>, cleaf_t<1>>;
         routing_kind<SEG>(a, "segregator<threshold(32) leaf,leaf>", [](leaves& l, rng&) {
             return std::unique_ptr<SEG>(new SEG(threshold(32, l.make<0>("A", 1 << 20, "C08")), l.make<1>("B", 1 << 20, "C08")));
